@@ -20,6 +20,6 @@ PROP = {
 META = {
     "design_ref": "DESIGN.md section 4, C09",
     "technique": "PBT over generated multi-thread logging scenarios and sink configurations (rapidcheck); oracle = expected multiset per sink from the filter model, per-thread order, byte-exact text/truncation, whole-line parsing of async/file/stdout output, file roll-over rules; ThreadSanitizer + ASan builds",
-    "level_text": "Generated maximum lengths (0..100 KiB incl. the 2 KiB stack-buffer boundary), 1-3 sinks (recording Sink and AsyncSink subclasses with generated pipe configurations, the in-tree AsyncFileSink with file limits from 1 byte, Sync/AsyncStdoutSink with fd 1 redirected), per-sink default and per-module thresholds, 1-6 logging threads with generated levels, modules, boundary-biased text lengths, printf- and puts-style calls and yields. After disable() every sink's content is compared with the filter model: each expected record exactly once, nothing else, per-thread order, all header fields and every text byte intact, truncation to exactly the maximum plus mark, one record per line, files whole and in order. Exploration: interleavings are sampled.",
+    "level_text": "Generated maximum lengths (0..100 KiB incl. the 2 KiB stack-buffer boundary), 1-3 sinks (recording Sink and AsyncSink subclasses with generated pipe configurations, the in-tree AsyncFileSink with file limits from 1 byte, Sync/AsyncStdoutSink with fd 1 redirected), per-sink default and per-module thresholds, 1-6 logging threads with generated levels, modules, boundary-biased text lengths, printf- and puts-style calls and yields. After disable() every sink's content is compared with the filter model: each expected record exactly once, nothing else, per-thread order, all header fields and every text byte intact, truncation to exactly the maximum plus mark, one record per line, files whole and in order. Exploration: interleavings are sampled. Later additions (seeding rounds): module and global thresholds as real setLevel()/unsetLevel() call sequences in any order, a second life of the same sink object, file sinks ended by cleanup() or destruction while enabled, record texts with embedded line feeds, maxima above 100 KiB, and generated record time stamps (gettimeofday() interposed for the logging thread, jumps across second boundaries in both directions) with an exact check of the time field.",
     "level_note": "Trusted: TSan/ASan, the line parser of the harness (format of the in-tree sinks), the filter model (level <= per-module threshold, else <= default). Limit L2 of DESIGN.md section 1 applies.",
 }
